@@ -9,6 +9,8 @@ mod zstd;
 
 pub(crate) use inner::*;
 pub use inner::{CompressionStrategy, ReadOnlyCompressedVec};
+#[cfg(feature = "verif")]
+pub use inner::{verif_page_from_bytes, verif_page_to_bytes};
 #[cfg(feature = "lz4")]
 pub use lz4::*;
 #[cfg(feature = "pco")]
